@@ -225,6 +225,8 @@ def r1_coindexed(ctx: Context, rule: str = "C04.R1") -> None:
                               f"path changes the structures out of step ({desc}); effects: {[repr(e) for e in effects]}")
             if names and names[0] == "join-batch":
                 _join_guards(ctx, name, path, effects, where)
+            if names and names[0] in ("remove-last-of-batch", "remove-batch-member"):
+                _leave_guards(ctx, rule, name, names[0], path, effects, where)
         ctx.count("worker_mutator_paths", npaths)
     ctx.floor(rule, "bundled paths in Worker mutators", found, 8)
     # who may write the Worker tables
@@ -266,6 +268,10 @@ def _key_agreement(ctx, rule, fname, bundle, effects, key, where):
     elif bundle in ("place-new-batch", "remove-last-of-batch"):
         ok = tab["_placed_batches"].key == tab["_batch_tasks_for_strategy"].key
         why = f"_placed_batches[{tab['_placed_batches'].key}] vs _batch_tasks_for_strategy[{tab['_batch_tasks_for_strategy'].key}]"
+        mem = [e for e in effects if e.kind in ("member-", "member+")]
+        if ok and bundle == "remove-last-of-batch" and mem:
+            ok = mem[0].key == tab["_placed_batches"].key
+            why = f"the member left _placed_batches[{mem[0].key}] but the entry removed is _placed_batches[{tab['_placed_batches'].key}]: the drained batch stays registered without an allocation, and a later task joins it without allocating"
         if bundle == "place-new-batch":
             v = tab["_batch_tasks_for_strategy"].value
             ok = ok and v is not None and norm(v) == led[0].key
@@ -324,6 +330,57 @@ def _join_guards(ctx, fname, path, effects, where):
     ctx.check(size_ok, "C01.R3", f"Worker.{fname}|join-batch guarded by batch size", where,
               "len(batch)+1 <= batch_size on the join path",
               "a task can join a batch beyond its batch_size without allocating")
+
+
+def _truthiness_as_len(test: ast.AST, name: str) -> ast.AST:
+    """`not M` / `M` used as a condition on a container -> `len(M) == 0` / `len(M) != 0`."""
+    def conv(n, top):
+        if isinstance(n, ast.UnaryOp) and isinstance(n.op, ast.Not):
+            return ast.UnaryOp(op=ast.Not(), operand=conv(n.operand, True))
+        if isinstance(n, ast.BoolOp):
+            return ast.BoolOp(op=n.op, values=[conv(v, True) for v in n.values])
+        if top and norm(n) == name:
+            return ast.parse(f"len({name}) != 0", mode="eval").body
+        return n
+    return ast.fix_missing_locations(conv(ast.parse(ast.unparse(test), mode="eval").body, True))
+
+
+def _leave_guards(ctx, rule, fname, bundle, path, effects, where):
+    """The batch's allocation is returned exactly when its last member leaves: after the member is removed from the
+    batch's member set the path must have established `len(members) == 0` (release) resp. `!= 0` (keep)."""
+    from .. import lin
+    rm = [e for e in effects if e.kind == "member-"]
+    if not rm:
+        return
+    rm_stmt = rm[0].node
+    members = None
+    f = rm_stmt.func if isinstance(rm_stmt, ast.Call) else None
+    if isinstance(f, ast.Attribute):
+        members = norm(f.value)
+    idx = None
+    for i, (node, _lab) in enumerate(path):
+        if node.ast is not None and any(x is rm_stmt for x in ast.walk(node.ast)):
+            idx = i
+    if idx is None or members is None:
+        raise AnalysisError(f"Worker.{fname}: member removal not located on the path")
+    want_empty = lin.formula(ast.parse(f"len({members}) == 0", mode="eval").body)
+    want = want_empty if bundle == "remove-last-of-batch" else lin.f_not(want_empty)
+    ok = False
+    for (node, lab) in path[idx + 1:]:
+        if lab is not None and lab[0] in ("T", "F") and isinstance(lab[1], ast.AST):
+            fm = lin.formula(_truthiness_as_len(lab[1], members))
+            fm = fm if lab[0] == "T" else lin.f_not(fm)
+            try:
+                if lin.entails(fm, want):
+                    ok = True
+            except ValueError:
+                pass
+    what = "released only when the batch is empty" if bundle == "remove-last-of-batch" else "kept while members remain"
+    ctx.check(ok, rule, f"Worker.{fname}|{bundle}: batch allocation {what}", where,
+              f"path establishes `len({members}) {'==' if bundle == 'remove-last-of-batch' else '!='} 0` after the removal",
+              f"Worker.{fname} ({bundle}): the batch's allocation is {'returned' if bundle == 'remove-last-of-batch' else 'kept'} "
+              f"on a path that has not established that `{members}` is {'empty' if bundle == 'remove-last-of-batch' else 'non-empty'} "
+              "after the member left: resources are released while batch members are resident, or held by an empty batch")
 
 
 # ---------------------------------------------------------------------------
@@ -850,6 +907,82 @@ def r6_removal_on_finish(ctx: Context, rule: str = "C04.R6") -> None:
                   f"remove_task({norm(targ) if targ is not None else '?'}) but {norm(clo[0].func.value)}.{closer}()")
 
 
+def r9_addition_is_additive(ctx: Context, rule: str = "C04.R9") -> None:
+    ctx.rule(rule, "Resources.__add__ (pool-level view of the workers' ledgers) sums every ledger of both operands key by "
+                   "key: available vector, configured totals and recorded allocations are each accumulated with += / extend "
+                   "from self and from other into an empty container, nothing is overwritten")
+    cls = _cls_node(ctx.repo, "Resources")
+    fn = method(cls, "__add__")
+    ctx.analysed_function(f"{RESOURCES}::Resources.__add__")
+    other = fn.args.args[1].arg
+    fields = {"_resource_vector": "+=", mangle("Resources", "__total_resources"): "+=", "_current_allocations": "extend"}
+    done = 0
+    for field, how in fields.items():
+        names = (field, field.replace("_Resources", "")) if field.startswith("_Resources") else (field,)
+        tgt = [a for a in ast.walk(fn) if isinstance(a, ast.Assign) and isinstance(a.targets[0], ast.Attribute)
+               and a.targets[0].attr in names and isinstance(a.targets[0].value, ast.Name) and a.targets[0].value.id not in ("self", other)]
+        key = f"Resources.__add__|{names[-1]}"
+        if len(tgt) != 1 or not isinstance(tgt[0].value, ast.Name):
+            ctx.violation(rule, key + " of the result is an accumulated local", loc(fn), f"the result's {names[-1]} is not assigned from one accumulated local")
+            continue
+        acc = tgt[0].value.id
+        init = [a for a in ast.walk(fn) if isinstance(a, ast.Assign) and isinstance(a.targets[0], ast.Name) and a.targets[0].id == acc]
+        is_counter = len(init) == 1 and isinstance(init[0].value, ast.Call) and call_name(init[0].value) == "Counter"
+        ok_init = len(init) == 1 and isinstance(init[0].value, ast.Call) and call_name(init[0].value) == "defaultdict" \
+            and len(init[0].value.args) == 1 and not init[0].value.keywords
+        ok_init = ok_init or is_counter  # collections.Counter: construction and update() both ADD counts
+        ctx.check(ok_init, rule, key + " accumulator starts empty", loc(init[0]) if init else loc(fn), "defaultdict(<type>)",
+                  f"`{norm(init[0]) if init else acc}`: the accumulator is seeded from an operand (its entries are then overwritten or "
+                  "counted without the other operand's)")
+        covered = set()
+        stray = []
+
+        def operand_field(e):
+            return e.value.id if isinstance(e, ast.Attribute) and e.attr in names and isinstance(e.value, ast.Name) and e.value.id in ("self", other) else None
+        if is_counter and init[0].value.args and operand_field(init[0].value.args[0]):
+            covered.add(operand_field(init[0].value.args[0]))
+        for n in ast.walk(fn):
+            uses_acc = None
+            if isinstance(n, ast.AugAssign) and isinstance(n.target, ast.Subscript) and isinstance(n.target.value, ast.Name) and n.target.value.id == acc:
+                uses_acc = ("+=", n)
+            elif isinstance(n, ast.Call) and isinstance(n.func, ast.Attribute):
+                base = n.func.value
+                if isinstance(base, ast.Subscript) and isinstance(base.value, ast.Name) and base.value.id == acc:
+                    uses_acc = (n.func.attr, n)
+                elif isinstance(base, ast.Name) and base.id == acc:
+                    uses_acc = ("." + n.func.attr, n)
+            elif isinstance(n, ast.Assign) and any(isinstance(t, ast.Subscript) and isinstance(t.value, ast.Name) and t.value.id == acc for t in n.targets):
+                uses_acc = ("=", n)
+            if uses_acc is None:
+                continue
+            op, node = uses_acc
+            lp = parent(node)
+            while lp is not None and not isinstance(lp, ast.For):
+                lp = parent(lp)
+            src_ok = None
+            if lp is not None and isinstance(lp.iter, ast.Call) and call_name(lp.iter) == "items" and isinstance(lp.iter.func.value, ast.Attribute) \
+                    and lp.iter.func.value.attr in names and isinstance(lp.iter.func.value.value, ast.Name) and lp.iter.func.value.value.id in ("self", other) \
+                    and isinstance(lp.target, ast.Tuple) and len(lp.target.elts) == 2:
+                k, v = norm(lp.target.elts[0]), norm(lp.target.elts[1])
+                sub = node.target if isinstance(node, ast.AugAssign) else (node.func.value if isinstance(node, ast.Call) else None)
+                val = node.value if isinstance(node, ast.AugAssign) else (node.args[0] if isinstance(node, ast.Call) and node.args else None)
+                if op == how and isinstance(sub, ast.Subscript) and norm(sub.slice) == k and val is not None and norm(val) == v \
+                        and (not isinstance(node, ast.AugAssign) or isinstance(node.op, ast.Add)):
+                    src_ok = lp.iter.func.value.value.id
+            if is_counter and op == ".update" and node.args and operand_field(node.args[0]):
+                src_ok = operand_field(node.args[0])
+            if src_ok:
+                covered.add(src_ok)
+            else:
+                stray.append(norm(node)[:70])
+        ctx.check(not stray, rule, key + " only accumulated", loc(tgt[0]), "no overwrite",
+                  f"{names[-1]} of the sum is also changed by {stray}: entries present in both operands are overwritten, not added")
+        ctx.check(covered == {"self", other}, rule, key + " accumulated from both operands", loc(tgt[0]), "self and other",
+                  f"{names[-1]} of the sum is accumulated from {sorted(covered) or 'neither operand'} only")
+        done += 1
+    ctx.floor(rule, "ledgers summed in Resources.__add__", done, 3)
+
+
 def run(ctx: Context) -> None:
     ctx.isolate(r1_coindexed)
     ctx.isolate(r2_refusal_changes_nothing)
@@ -857,6 +990,7 @@ def run(ctx: Context) -> None:
     ctx.isolate(r4_r5_copies)
     ctx.isolate(r6_removal_on_finish)
     ctx.isolate(_r7_allocation_invariant)
+    ctx.isolate(r9_addition_is_additive)
 
 
 def _r7_allocation_invariant(ctx: Context) -> None:
